@@ -39,13 +39,13 @@ REQUIRED_COUNTERS = {
               "subst_products_compared": 600, "subst_objparam_cases": 60, "subst_grad_compared": 100, "subst_restored_checked": 100,
               "typeerror_cases": 30, "hess_operators": 100, "idxs_none": 50, "idxs_int": 50, "idxs_list": 50, "idxs_tuple": 50,
               "kind_pure": 80, "kind_nn": 80, "kind_editable": 80, "reevaluations_forced": 300,
-              "argdep_products_compared": 500, "argdep_subst_compared": 100, "argdep_grad_compared_second": 80},
+              "argdep_products_compared": 500, "argdep_nograd_compared": 80, "argdep_subst_compared": 100, "argdep_grad_compared_second": 80},
     "thorough": {"operators_checked": 5000, "products_compared": 40000, "grad_compared_first": 3000, "grad_compared_second": 3000,
                  "subst_products_compared": 6000, "subst_objparam_cases": 600, "subst_grad_compared": 1000,
                  "subst_restored_checked": 1000, "typeerror_cases": 300, "hess_operators": 1000, "idxs_none": 500, "idxs_int": 500,
                  "idxs_list": 500, "idxs_tuple": 500, "kind_pure": 800, "kind_nn": 800, "kind_editable": 800,
                  "reevaluations_forced": 3000,
-                 "argdep_products_compared": 5000, "argdep_subst_compared": 1000, "argdep_grad_compared_second": 800},
+                 "argdep_products_compared": 5000, "argdep_nograd_compared": 800, "argdep_subst_compared": 1000, "argdep_grad_compared_second": 800},
 }
 
 DT = torch.float64
